@@ -205,9 +205,7 @@ pub fn effective(case: &HistCase) -> (Vec<String>, usize) {
     let mut pool = case.pool.clone();
     if case.cfg.contains_overlay() {
         for n in pool.iter_mut() {
-            if n.len() > 200 {
-                n.truncate(200);
-            }
+            crate::gen::cut_name(n, 200);
         }
     }
     pool.dedup();
